@@ -359,7 +359,7 @@ theorem getNext_some {tm tm' : TM} {fired : List Fire} {now : Nat} {e : Entry} {
 /-- `get_next_task` when nothing is due -/
 theorem getNext_none {tm tm' : TM} {now : Nat} {d : Option Nat}
     (hg : tm.getNext now = (none, d, tm')) :
-    tm' = tm ∧ (∀ x ∈ tm.heap, now < x.time) ∧ (d = none ↔ tm.heap = []) := by
+    tm' = tm ∧ (∀ x ∈ tm.heap, now < x.time) ∧ (d = none ↔ tm.heap = []) ∧ d ≠ some 0 := by
   unfold TM.getNext at hg
   cases hp : popMin tm.heap with
   | none =>
@@ -377,7 +377,7 @@ theorem getNext_none {tm tm' : TM} {now : Nat} {d : Option Nat}
     · rename_i hdue
       simp only [Prod.mk.injEq, true_and] at hg
       obtain ⟨rfl, rfl⟩ := hg
-      refine ⟨rfl, ?_, ?_⟩
+      refine ⟨rfl, ?_, ?_, ?_⟩
       · intro x hx
         rcases List.mem_cons.mp (hperm.mem_iff.mp hx) with rfl | hx'
         · omega
@@ -385,6 +385,7 @@ theorem getNext_none {tm tm' : TM} {now : Nat} {d : Option Nat}
       · constructor
         · intro hh; cases hh
         · intro hh; rw [hh] at hp; simp [popMin] at hp
+      · simp; omega
 /-! ## the world: frame lemmas for the deferred side -/
 
 /-- the manager without the wake-up flag -/
@@ -600,7 +601,7 @@ theorem fireNext_winv {w : World} (h : WInv w) : WInv w.fireNext.1 := by
   cases e? with
   | none =>
     simp only
-    obtain ⟨rfl, _, _⟩ := getNext_none hg
+    obtain ⟨rfl, _, _, _⟩ := getNext_none hg
     exact h
   | some e =>
     simp only
@@ -1062,7 +1063,7 @@ theorem fireNext_quiet {t : Nat} {w : World} (h : WInv w) (hf : w.tm.flag t = fa
   cases e? with
   | none =>
     simp only
-    obtain ⟨rfl, _, _⟩ := getNext_none hg
+    obtain ⟨rfl, _, _, _⟩ := getNext_none hg
     exact ⟨hf, fun f hf' _ => hf'⟩
   | some e =>
     simp only
@@ -1190,4 +1191,296 @@ theorem unscheduled_silent {w : World} (hw : Fresh w) (before after : List Op) (
     (hfl : (w.run before).tm.flag t = false) (ha : ∀ op ∈ after, arms t op = false) :
     ∀ f ∈ ((w.run before).run after).fired, f.tid = t → f ∈ (w.run before).fired :=
   (run_quiet after (reachable_winv hw before) hfl ha).2
+/-! ## a pass leaves nothing behind: completeness of run_once and run
+
+  This is the "exactly once" half of `once_per_install` and the task half of the
+  isolation clause: whatever raised during the pass, when `run_once()` returns
+  (resp. when `run()` reaches virtual time `T`) no queued entry is due any more
+  and the deferred queue is empty.  Together with `install_fate` /
+  `pending_or_done`: an installation that was not deleted by suspend_task or
+  replaced by a re-install, and whose time has passed, HAS fired — once. -/
+
+/-- nothing in the heap is due at `w.now` -/
+def NoDue (w : World) : Prop := ∀ e ∈ w.tm.heap, w.now < e.time
+
+/-- number of due entries -/
+def dueCount (now : Nat) (h : List Entry) : Nat := h.countP (fun e => decide (e.time ≤ now))
+
+theorem getNext_delta {tm tm' : TM} {now : Nat} {e? : Option Entry} {d : Option Nat}
+    (hg : tm.getNext now = (e?, d, tm')) :
+    ∀ x ∈ tm'.heap, ∃ dd, d = some dd ∧ now + dd ≤ max x.time now ∧ (dd ≠ 0 → now < x.time) := by
+  unfold TM.getNext at hg
+  cases hp : popMin tm.heap with
+  | none =>
+    rw [hp] at hg; simp only [Prod.mk.injEq] at hg
+    obtain ⟨_, _, rfl⟩ := hg
+    rw [popMin_none.mp hp]; simp
+  | some p =>
+    obtain ⟨m, rest⟩ := p
+    rw [hp] at hg
+    obtain ⟨hperm, hmin⟩ := popMin_some hp
+    simp only at hg
+    split at hg
+    · simp only [Prod.mk.injEq] at hg
+      obtain ⟨_, rfl, rfl⟩ := hg
+      simp only
+      intro x hx
+      unfold peekMin
+      cases hp2 : popMin rest with
+      | none => rw [popMin_none.mp hp2] at hx; simp at hx
+      | some p2 =>
+        obtain ⟨e2, r2⟩ := p2
+        obtain ⟨hperm2, hmin2⟩ := popMin_some hp2
+        have hb : e2.time ≤ x.time := by
+          rcases List.mem_cons.mp (hperm2.mem_iff.mp hx) with rfl | hx'
+          · exact Nat.le_refl _
+          · have := hmin2 x hx'; unfold Entry.before at this; omega
+        refine ⟨e2.time - now, rfl, ?_, ?_⟩ <;> omega
+    · rename_i hdue
+      simp only [Prod.mk.injEq] at hg
+      obtain ⟨_, rfl, rfl⟩ := hg
+      intro x hx
+      have hb : m.time ≤ x.time := by
+        rcases List.mem_cons.mp (hperm.mem_iff.mp hx) with rfl | hx'
+        · exact Nat.le_refl _
+        · have := hmin x hx'; unfold Entry.before at this; omega
+      refine ⟨m.time - now, rfl, ?_, ?_⟩ <;> omega
+
+theorem timeout_le (w : World) (dd : Nat) : w.timeout (some dd) ≤ dd := by
+  unfold World.timeout; exact Nat.min_le_left _ _
+
+/-- `TaskManager.install_task` of an unflagged task only pushes -/
+theorem install_unflagged {tm : TM} {tid t : Nat} (ht : tm.ttime tid = some t) (hf : tm.flag tid = false) :
+    (tm.install tid).1.heap = ⟨t, tm.counter, tid⟩ :: tm.heap ∧ (tm.install tid).1.trig = true := by
+  unfold TM.install
+  rw [ht]
+  simp [hf]
+
+/-- what `process_task` does to the heap of a just-popped (hence unflagged) task:
+    nothing, or — recurring task, valid interval — one new entry strictly in
+    the future, with the wake-up flag set -/
+theorem process_heap {w : World} {e : Entry} (hf : w.tm.flag e.tid = false) :
+    (w.process e).1.now = w.now ∧ (w.process e).1.spin = w.spin ∧
+    ((w.process e).1.tm.heap = w.tm.heap ∨
+     ((w.process e).1.tm.trig = true ∧
+      ∃ t c, w.now < t ∧ (w.process e).1.tm.heap = ⟨t, c, e.tid⟩ :: w.tm.heap)) := by
+  unfold World.process
+  simp only
+  generalize hw1 : ({ w with fired := w.fired ++ [Fire.mk e.tid e.time e.seq w.now w.tm.counter],
+                             out := w.out ++ [Ev.fire e.tid w.now e.time e.seq] } : World) = w1
+  have hk := deferAll_keeps w1 (w.body e.tid).defers
+  have hheap : (w1.deferAll (w.body e.tid).defers).tm.heap = w.tm.heap := by rw [hk.heap, ← hw1]
+  have hflag : (w1.deferAll (w.body e.tid).defers).tm.flag e.tid = false := by rw [hk.flag, ← hw1]; exact hf
+  have hnow : (w1.deferAll (w.body e.tid).defers).now = w.now := by rw [hk.now, ← hw1]
+  have hspin : (w1.deferAll (w.body e.tid).defers).spin = w.spin := by rw [hk.spin, ← hw1]
+  generalize w1.deferAll (w.body e.tid).defers = w2 at *
+  split
+  · refine ⟨hnow, hspin, ?_⟩
+    simp only
+    unfold TM.installRecurring
+    have hset : w2.tm.setRecurring e.tid none none = w2.tm := rfl
+    simp only [hset]
+    split
+    · exact Or.inl hheap
+    · split
+      · exact Or.inl hheap
+      · rename_i iv _ hiv
+        right
+        generalize ht0 : (slotAfter (w2.now + w2.tm.jitter) iv (w2.tm.offsetOf e.tid)).toNat = t0
+        have := install_unflagged (tm := { w2.tm with ttime := upd w2.tm.ttime e.tid (some t0) })
+          (tid := e.tid) (t := t0) (by simp [upd]) hflag
+        refine ⟨this.2, t0, _, ?_, by rw [this.1, hheap]⟩
+        have hgt := slotAfter_gt (w2.now + w2.tm.jitter) iv (w2.tm.offsetOf e.tid) (by omega)
+        rw [← hnow, ← ht0]
+        omega
+  · exact ⟨hnow, hspin, Or.inl hheap⟩
+
+theorem emit_same (w : World) (e : Ev) : (w.emit e).tm = w.tm ∧ (w.emit e).now = w.now ∧
+    (w.emit e).spin = w.spin ∧ (w.emit e).queue = w.queue := ⟨rfl, rfl, rfl, rfl⟩
+
+/-- everything the two loops need to know about one `get_next_task` +
+    `process_task` -/
+theorem fireNext_spec {w : World} (h : WInv w) :
+    w.fireNext.1.now = w.now ∧ w.fireNext.1.spin = w.spin ∧
+    -- run_once: it continues only while something was popped and the next head is due
+    (w.fireNext.2.1 ≠ some 0 → NoDue w.fireNext.1) ∧
+    (w.fireNext.2.1 = some 0 → dueCount w.now w.fireNext.1.tm.heap + 1 = dueCount w.now w.tm.heap) ∧
+    -- run: if nothing raised and nobody set the wake-up flag, `delta` is still right
+    (w.fireNext.1.tm.trig = false →
+      ∀ x ∈ w.fireNext.1.tm.heap, w.now + w.timeout w.fireNext.2.1 ≤ max x.time w.now) := by
+  unfold World.fireNext
+  rcases hg : w.tm.getNext w.now with ⟨e?, d, tm'⟩
+  have hdelta := getNext_delta hg
+  cases e? with
+  | none =>
+    simp only
+    obtain ⟨rfl, hnd, hdn, hd0⟩ := getNext_none hg
+    refine ⟨by simp, by simp, fun _ => hnd, ?_, ?_⟩
+    · intro hd
+      -- delta = some 0 is impossible when nothing is due
+      exact absurd hd hd0
+    · intro _ x hx
+      obtain ⟨dd, hdd, h1, _⟩ := hdelta x hx
+      rw [hdd]; have := timeout_le w dd; omega
+  | some e =>
+    simp only
+    obtain ⟨_, hdue, hmem, hperm, hmin⟩ := getNext_some h.sched hg
+    have hfl : tm'.flag e.tid = false := by
+      unfold TM.getNext at hg
+      split at hg
+      · simp at hg
+      · split at hg
+        · simp only [Prod.mk.injEq, Option.some.injEq] at hg
+          obtain ⟨rfl, _, rfl⟩ := hg
+          simp [upd]
+        · simp at hg
+    obtain ⟨hnow, hspin, hheap⟩ := process_heap (w := { w with tm := tm' }) (e := e) hfl
+    -- the result, with or without the logged exception
+    have key : ∀ v : World, v.tm = (World.process { w with tm := tm' } e).1.tm →
+        v.now = (World.process { w with tm := tm' } e).1.now →
+        v.spin = (World.process { w with tm := tm' } e).1.spin →
+        v.now = w.now ∧ v.spin = w.spin ∧ (d ≠ some 0 → NoDue v) ∧
+        (d = some 0 → dueCount w.now v.tm.heap + 1 = dueCount w.now w.tm.heap) ∧
+        (v.tm.trig = false → ∀ x ∈ v.tm.heap, w.now + w.timeout d ≤ max x.time w.now) := by
+      intro v hvtm hvnow hvspin
+      have hcount : dueCount w.now tm'.heap + 1 = dueCount w.now w.tm.heap := by
+        unfold dueCount
+        rw [hperm.countP_eq, List.countP_cons]
+        simp [hdue]
+      refine ⟨by rw [hvnow, hnow], by rw [hvspin, hspin], ?_, ?_, ?_⟩
+      · intro hd x hx
+        rw [hvnow, hnow]
+        have hrest : ∀ y ∈ tm'.heap, w.now < y.time := by
+          intro y hy
+          obtain ⟨dd, hdd, _, h2⟩ := hdelta y hy
+          apply h2; intro h0; rw [hdd, h0] at hd; exact hd rfl
+        rw [hvtm] at hx
+        rcases hheap with hh | ⟨_, t, c, ht, hh⟩
+        · rw [hh] at hx; exact hrest x hx
+        · rw [hh] at hx
+          rcases List.mem_cons.mp hx with rfl | hx'
+          · exact ht
+          · exact hrest x hx'
+      · intro _
+        rw [hvtm]
+        rcases hheap with hh | ⟨_, t, c, ht, hh⟩
+        · rw [hh]; exact hcount
+        · rw [hh]
+          have : dueCount w.now (⟨t, c, e.tid⟩ :: tm'.heap) = dueCount w.now tm'.heap := by
+            unfold dueCount
+            rw [List.countP_cons]
+            have : ¬ t ≤ w.now := by simp at ht; omega
+            simp [this]
+          simp only at this ⊢
+          rw [this]; exact hcount
+      · intro htrig x hx
+        rw [hvtm] at htrig hx
+        rcases hheap with hh | ⟨htr, _⟩
+        · rw [hh] at hx
+          obtain ⟨dd, hdd, h1, _⟩ := hdelta x hx
+          rw [hdd]; have := timeout_le w dd; omega
+        · rw [htr] at htrig; cases htrig
+    split
+    · exact key _ rfl rfl rfl
+    · exact key _ rfl rfl rfl
+
+theorem drain_same (w : World) : w.drain.tm.heap = w.tm.heap ∧ w.drain.now = w.now ∧ w.drain.spin = w.spin :=
+  ⟨(drain_keeps w).heap, (drain_keeps w).now, (drain_keeps w).spin⟩
+
+/-- the `while delta == 0.0` loop with enough fuel runs to completion -/
+theorem runOnceLoop_complete (fuel : Nat) {w : World} (h : WInv w)
+    (hfuel : dueCount w.now w.tm.heap < fuel) :
+    (w.runOnceLoop fuel).2 = true ∧ NoDue (w.runOnceLoop fuel).1 ∧ (w.runOnceLoop fuel).1.queue = [] ∧
+    (w.runOnceLoop fuel).1.now = w.now := by
+  induction fuel generalizing w with
+  | zero => omega
+  | succ n ih =>
+    unfold World.runOnceLoop
+    simp only
+    obtain ⟨hnow, _, hnd, hcnt, _⟩ := fireNext_spec h
+    obtain ⟨dh, dn, _⟩ := drain_same w.fireNext.1
+    split
+    · rename_i hd
+      have hw := drain_winv (fireNext_winv h)
+      have := ih hw (by rw [dh, dn, hnow]; have := hcnt hd; omega)
+      exact ⟨this.1, this.2.1, this.2.2.1, by rw [this.2.2.2, dn, hnow]⟩
+    · rename_i hd
+      refine ⟨rfl, ?_, drain_queue_empty _, by rw [dn, hnow]⟩
+      intro e he
+      rw [dh] at he; rw [dn]
+      exact hnd hd e he
+
+theorem dueCount_le_length (now : Nat) (h : List Entry) : dueCount now h ≤ h.length :=
+  List.countP_le_length
+
+/-- **run_once is complete**: the fuel of `World.runOnce` is never exhausted;
+    on return nothing queued is due and nothing is left in the deferred queue —
+    whichever tasks or deferred functions raised -/
+theorem runOnce_complete {w : World} (h : WInv w) :
+    w.runOnce.2 = true ∧ NoDue w.runOnce.1 ∧ w.runOnce.1.queue = [] ∧ w.runOnce.1.now = w.now := by
+  unfold World.runOnce
+  exact runOnceLoop_complete _ h (by have := dueCount_le_length w.now w.tm.heap; omega)
+
+theorem runLoop_raised {w : World} (n T : Nat) (hr : w.fireNext.2.2 = true) :
+    w.runLoop (n + 1) T = w.fireNext.1.runLoop n T := by
+  rw [World.runLoop]; simp only [hr, if_true]
+
+theorem runLoop_trig {w : World} (n T : Nat) (hr : w.fireNext.2.2 = false)
+    (ht : w.fireNext.1.tm.trig = true) :
+    w.runLoop (n + 1) T =
+      World.runLoop n T ({ w.fireNext.1 with tm := { w.fireNext.1.tm with trig := false } } : World).drain := by
+  rw [World.runLoop]; simp [hr, ht]
+
+theorem runLoop_stop {w : World} (n T : Nat) (hr : w.fireNext.2.2 = false)
+    (ht : w.fireNext.1.tm.trig = false)
+    (hgt : w.fireNext.1.now + w.fireNext.1.timeout w.fireNext.2.1 > T) :
+    w.runLoop (n + 1) T =
+      (({ w.fireNext.1 with now := max w.fireNext.1.now T,
+                            tm := { w.fireNext.1.tm with trig := true } } : World).drain, true) := by
+  rw [World.runLoop]; simp [hr, ht, hgt]
+
+theorem runLoop_wait {w : World} (n T : Nat) (hr : w.fireNext.2.2 = false)
+    (ht : w.fireNext.1.tm.trig = false)
+    (hgt : ¬ w.fireNext.1.now + w.fireNext.1.timeout w.fireNext.2.1 > T) :
+    w.runLoop (n + 1) T =
+      World.runLoop n T ({ w.fireNext.1 with now := w.fireNext.1.now + w.fireNext.1.timeout w.fireNext.2.1 } : World).drain := by
+  rw [World.runLoop]; simp only [hr, ht, hgt]; simp
+
+/-- **run is complete**: if the loop reaches `stop()` (second component `true`),
+    the clock is at `T`, nothing queued is due at `T` and the deferred queue is
+    empty — whichever tasks or deferred functions raised -/
+theorem runLoop_complete (fuel T : Nat) {w : World} (h : WInv w) (hT : w.now ≤ T)
+    (hdone : (w.runLoop fuel T).2 = true) :
+    (w.runLoop fuel T).1.now = T ∧ NoDue (w.runLoop fuel T).1 ∧ (w.runLoop fuel T).1.queue = [] := by
+  induction fuel generalizing w with
+  | zero => simp [World.runLoop] at hdone
+  | succ n ih =>
+    obtain ⟨hnow, hspin, _, _, htrig⟩ := fireNext_spec h
+    have h1 := fireNext_winv h
+    by_cases hr : w.fireNext.2.2 = true
+    · rw [runLoop_raised n T hr] at hdone ⊢
+      exact ih h1 (by rw [hnow]; exact hT) hdone
+    · have hr' : w.fireNext.2.2 = false := by simpa using hr
+      by_cases htr : w.fireNext.1.tm.trig = true
+      · rw [runLoop_trig n T hr' htr] at hdone ⊢
+        have hw := drain_winv (setTrig_winv false h1)
+        exact ih hw (by rw [(drain_same _).2.1]; simp only; rw [hnow]; exact hT) hdone
+      · have htr' : w.fireNext.1.tm.trig = false := by simpa using htr
+        by_cases hgt : w.fireNext.1.now + w.fireNext.1.timeout w.fireNext.2.1 > T
+        · rw [runLoop_stop n T hr' htr' hgt]
+          obtain ⟨dh, dn, _⟩ := drain_same ({ w.fireNext.1 with now := max w.fireNext.1.now T, tm := { w.fireNext.1.tm with trig := true } } : World)
+          refine ⟨?_, ?_, drain_queue_empty _⟩
+          · simp only; rw [dn]; simp only; rw [hnow]; omega
+          · intro e he
+            simp only at he ⊢
+            rw [dh] at he; rw [dn]
+            simp only at he ⊢
+            have := htrig htr' e he
+            have hto : w.fireNext.1.timeout w.fireNext.2.1 = w.timeout w.fireNext.2.1 := by
+              unfold World.timeout; rw [hspin]
+            rw [hnow, hto] at hgt
+            rw [hnow]; omega
+        · rw [runLoop_wait n T hr' htr' hgt] at hdone ⊢
+          have hw := drain_winv (setNow_winv (w.fireNext.1.now + w.fireNext.1.timeout w.fireNext.2.1) h1)
+          exact ih hw (by rw [(drain_same _).2.1]; simp only; omega) hdone
 end BacVerif.C14
